@@ -780,6 +780,9 @@ pub fn analyze(sc: &Scenario, out: &RunOut) -> Analysis {
                     special = true;
                     acceptable.push(format!("{:?}", E::Timeout));
                 }
+                // With a wall-clock step budget configured, a slow machine may
+                // make any step overrun: a Timeout is then a legitimate answer.
+                let timeout_possible = spec.timeout_ms != 0;
                 let invalid_deadline = matches!(cmd, Some(Cmd::StepUntil(_))) && cmd_target.map_or(false, |tg| tg < cmd_start_now);
                 if invalid_deadline {
                     special = true;
@@ -811,7 +814,8 @@ pub fn analyze(sc: &Scenario, out: &RunOut) -> Analysis {
                         let bad_query_ok = matches!(e, E::BadQuery)
                             && matches!(cmd, Some(Cmd::ProcQuery { node, .. }) if nstate(spec, *node) != NState::InSim);
                         let bad_query_src = matches!(e, E::BadQuery) && matches!(cmd, Some(Cmd::ProcQSrc { .. }));
-                        if !acceptable.contains(&s) && !bad_query_ok && !bad_query_src {
+                        let spurious_timeout = timeout_possible && matches!(e, E::Timeout);
+                        if !acceptable.contains(&s) && !bad_query_ok && !bad_query_src && !spurious_timeout {
                             let tag = match e {
                                 E::Deadlock(_) | E::MessageLoss(_) => "report_exact",
                                 _ => "error_class",
